@@ -30,6 +30,7 @@ ANN_OF = {'alpha': 'OmAlpha', BETA: 'OmBeta', 'gamma': 'OmGamma'}
 LEVEL_PATTERNS = [(), ('alpha',), (BETA,), ('alpha', BETA)]
 TIER = ['quick']
 _U = {}
+UCHAINS = []
 
 
 # ---------------------------------------------------------------------------
@@ -59,6 +60,29 @@ def chain_specs(depth):
             lines.append('')
         chains.append((cid, names, fields))
         cid += 1
+    return '\n'.join(lines), chains
+
+
+def union_chain_specs(depth):
+    """All union chains of `depth` levels (the same product as the struct chains): per level one public void tag, and per caller of the
+    level's pattern one typed tag omitted for it.  Returns (text, chains) - chains: [(names, {union: [(tag, caller|None)]})]"""
+    lines = []
+    chains = []
+    for cid, pats in enumerate(p for p in itertools.product(LEVEL_PATTERNS, repeat=depth) if any(p)):
+        names = []
+        tags = {}
+        for lvl, pat in enumerate(pats):
+            nm = 'Q%dL%d' % (cid, lvl)
+            names.append(nm)
+            lines.append('union %s%s' % (nm, ' extends %s' % names[lvl - 1] if lvl else ''))
+            tl = [('q%d' % lvl, None)] + [('t%d%s' % (lvl, c[0]), c) for c in pat]
+            tags[nm] = tl
+            for tname, caller in tl:
+                lines.append('    %s%s' % (tname, ' String' if caller else ''))
+                if caller:
+                    lines.append('        @%s' % ANN_OF[caller])
+            lines.append('')
+        chains.append((names, tags))
     return '\n'.join(lines), chains
 
 
@@ -118,7 +142,9 @@ struct TLeaf extends Tree
         @OmBeta
 '''
     leaf = chains[-1][1][-1]
-    return '\n'.join(head) + text + (u % {'leaf': leaf}), chains, leaf
+    utext, uchains = union_chain_specs(min(depth, 3))
+    UCHAINS[:] = uchains
+    return '\n'.join(head) + text + (u % {'leaf': leaf}) + '\n' + utext, chains, leaf
 
 
 REDACTORS = [('Rb', 'RedactedBlot()', 'blot', None), ('Rbx', 'RedactedBlot("^(vis)ible-([A-Z])")', 'blot', r'^(vis)ible-([A-Z])'),
@@ -403,6 +429,18 @@ def omit_union_task(item):
         ('UnionOChild', 'omv', 'alpha', lambda: om.UnionOChild.omv, None),
         ('UnionOc', 'cv', None, lambda: om.UnionOc.cv, None), ('UnionOc', 'ct', 'alpha', lambda: om.UnionOc.ct('SENT-ct'), 'SENT-ct'),
     ]
+    # every union chain of the product: every level's class x every tag it declares or inherits
+    own_of = {}
+    for names, tags in UCHAINS:
+        for li, cname_ in enumerate(names):
+            for lj in range(li + 1):
+                for tname, caller_ in tags[names[lj]]:
+                    own_of[(cname_, tname)] = lj == li
+                    if caller_ is None:
+                        cases.append((cname_, tname, None, (lambda c=cname_, t=tname: getattr(getattr(om, c), t)), None))
+                    else:
+                        sent = 'SENT-%s-%s' % (cname_, tname)
+                        cases.append((cname_, tname, caller_, (lambda c=cname_, t=tname, sv=sent: getattr(getattr(om, c), t)(sv)), sent))
     for cname, tag, caller, make, sentinel in cases:
         validator = getattr(om, cname + '_validator')
         for perms in subsets(CALLERS):
@@ -428,11 +466,11 @@ def omit_union_task(item):
                 shown = emitted and (('"%s"' % tag) in text or (sentinel is not None and sentinel in text))
                 if shown and not should:
                     oc['leak'] += 1
-                    out_v.append(viol('omitted-leak:union:%s' % ('own' if tag in ('omv', 'omt', 'oms', 'ct') and cname != 'UnionOChild' or tag.startswith('child') else 'inherited'),
+                    out_v.append(viol('omitted-leak:union:%s' % (('own' if own_of[(cname, tag)] else 'inherited') + '@chain' if (cname, tag) in own_of else 'own' if tag in ('omv', 'omt', 'oms', 'ct') and cname != 'UnionOChild' or tag.startswith('child') else 'inherited'),
                                       'tag %s.%s omitted for %r is encoded for permissions %r: %s' % (cname, tag, caller, perms, text[:200]), inputs, text[:300]))
                 elif should and not shown:
                     oc['missing'] += 1
-                    out_v.append(viol('permitted-tag-missing:union:%s' % ('inherited' if cname == 'UnionOChild' and not tag.startswith('child') else 'own'),
+                    out_v.append(viol('permitted-tag-missing:union:%s' % (('own' if own_of[(cname, tag)] else 'inherited') + '@chain' if (cname, tag) in own_of else 'inherited' if cname == 'UnionOChild' and not tag.startswith('child') else 'own'),
                                       'tag %s.%s (%s) could not be encoded for permissions %r' % (cname, tag, caller, perms), inputs))
                 else:
                     oc['ok'] += 1
